@@ -307,6 +307,22 @@ def zones(S, v, mode):
     return z
 
 
+def eqne_number_class_grey(S, v):
+    """.eq/.ne between numbers of different classes with the same value (2 against 2.0): RFC 8610 does not say whether the
+    comparison is by value or by data item; the model compares data items, the validators compare by value. Not decided."""
+    lits = set()
+    for t, _ in all_types(S):
+        if t[0] == "ctl" and t[1] in ("eq", "ne") and t[3][0] == "lit" and t[3][1][0] in ("int", "flt"):
+            k, x = t[3][1]
+            lits.add(("int", 4 * x) if k == "int" else ("flt", x))
+    for d in doc_values(v):
+        if d[0] == "int" and ("flt", 4 * d[1]) in lits:
+            return True
+        if d[0] == "flt" and ("int", d[1]) in lits:
+            return True
+    return False
+
+
 def in_clean_fragment(S, mode):
     """schema-only part of the classifiers: no zone can apply whatever the document (used for generator statistics)"""
     P = "c01" if mode == "json" else "c02"
